@@ -781,7 +781,10 @@ func (cc *Conn) processResponse(reqType message.Type, reqMessageID int32, w *res
 		w.Message().SetMessageID(reqMessageID)
 	}
 	if reqType == message.Confirmable || reqType == message.NonConfirmable {
-		err := cc.addResponseToCache(w.Message())
+		// The cache is looked up by the message ID of the (duplicated) request. The response
+		// to a non-confirmable request carries our own message ID, so the key must be given
+		// explicitly.
+		err := cc.responseMsgCache.Store(strconv.Itoa(int(reqMessageID)), w.Message())
 		if err != nil {
 			return fmt.Errorf("cannot cache response: %w", err)
 		}
